@@ -148,12 +148,37 @@ def cfg_key(cfg):
     return json.dumps(cfg, sort_keys=True)
 
 
+def strip_displays(stmts):
+    """remove Display statements (output only, no effect on any signal).  The model's timing checker passes Python ints as
+    Display arguments, which stock migen.sim refuses with an assertion as soon as such a statement executes."""
+    from migen.fhdl.structure import If, Case, Display
+    out = []
+    for s in stmts:
+        if isinstance(s, Display):
+            continue
+        if isinstance(s, If):
+            s.t = strip_displays(s.t)
+            s.f = strip_displays(s.f)
+        elif isinstance(s, Case):
+            for k in list(s.cases):
+                s.cases[k] = strip_displays(s.cases[k])
+        elif isinstance(s, (list, tuple)):
+            s = strip_displays(s)
+        out.append(s)
+    return out
+
+
 def get_sim(cfg, backend="fast"):
     """(dut, sim).  dut has .dfi (and .ports for a core configuration)"""
     mk = CoreModelDUT if cfg.get("core") else build_model
     if backend == "migen":
         dut = mk(cfg)
-        return dut, MigenSim(dut, {"sys": 10})
+        sim = MigenSim(dut, {"sys": 10})
+        if cfg.get("verbosity"):
+            sim.frag.comb[:] = strip_displays(sim.frag.comb)
+            for cd in list(sim.frag.sync):
+                sim.frag.sync[cd] = strip_displays(sim.frag.sync[cd])
+        return dut, sim
     k = cfg_key(cfg)
     ent = _CACHE.get(k)
     if ent is None:
@@ -825,30 +850,43 @@ def core_findings(run):
 # ---------------------------------------------------------------------------------------------------
 # strategies
 @st.composite
-def model_cfg(draw, memtype=None, ncols=None, init=None, core=False, base=None, weg=None):
+def model_cfg(draw, memtype=None, ncols=None, init=None, core=False, base=None, weg=None, libgeom=None):
     import litedram.modules as M
     mt = memtype or draw(st.sampled_from(MEMTYPES))
     bname = base or draw(st.sampled_from(BASES[mt]))
     bcls = getattr(M, bname)
-    libgeom = draw(st.booleans())
+    lg = draw(st.booleans()) if libgeom is None else libgeom
     cfg = dict(memtype=mt, base=bname, clk_freq=draw(st.sampled_from(CLOCKS[mt])), databits=draw(st.sampled_from([8, 16, 16, 32, 64])))
-    nbanks = bcls.nbanks if libgeom else draw(st.sampled_from([2, 4, 8, 16] if mt == "DDR4" else [2, 4, 8]))
-    nc = ncols or (bcls.ncols if libgeom else draw(st.sampled_from([256, 512, 1024, 1024, 2048])))
+    nbanks = bcls.nbanks if lg else draw(st.sampled_from([2, 4, 8, 16] if mt == "DDR4" else [2, 4, 8]))
+    nc = ncols or (bcls.ncols if lg else draw(st.sampled_from([256, 512, 1024, 1024, 2048])))
     nrows = draw(st.sampled_from([8, 16, 32]))
     cfg.update(nbanks=nbanks, nrows=nrows, ncols=nc)
-    P0 = dict(cpw=(1 if mt == "SDR" else 2 * {"DDR": 2, "LPDDR": 2, "DDR2": 2, "DDR3": 4, "DDR4": 4}[mt]))
-    while cfg["nbanks"] * cfg["nrows"] * cfg["ncols"] // P0["cpw"] > MAX_WORDS:
-        if cfg["nrows"] > 8:
+    cfg["weg"] = draw(st.sampled_from([8, 8, 0])) if weg is None else weg
+    nph = {"SDR": 1, "DDR": 2, "LPDDR": 2, "DDR2": 2, "DDR3": 4, "DDR4": 4}[mt]
+    cpw = 1 if mt == "SDR" else 2 * nph
+    lanes = (cfg["databits"] * cpw // 8) if cfg["weg"] else 1
+
+    def cost():
+        # Migen's simulator front end builds one signal per memory word and one slice object per word and byte lane
+        words = cfg["nbanks"] * cfg["nrows"] * cfg["ncols"] // cpw
+        return max(words * lanes // 6, words)
+    minrows = 8 if core else 4
+    while cost() > MAX_WORDS:
+        if cfg["nrows"] > minrows:
             cfg["nrows"] //= 2
-        elif cfg["nbanks"] > 2:
+        elif cfg["nbanks"] > 2 and not (lg and cfg["nbanks"] <= 4):
             cfg["nbanks"] //= 2
-        else:
+        elif cfg["databits"] > 8:
+            cfg["databits"] //= 2
+            lanes = (cfg["databits"] * cpw // 8) if cfg["weg"] else 1
+        elif ncols is None and not lg and cfg["ncols"] > 256:
             cfg["ncols"] //= 2
+        else:
+            break
     colbits = log2(cfg["ncols"])
     need = 11 if colbits <= 10 else colbits + 1
     cfg["addressbits"] = draw(st.sampled_from([need, 13, 14, 15]))
     cfg["addressbits"] = max(cfg["addressbits"], need)
-    cfg["weg"] = draw(st.sampled_from([8, 8, 0])) if weg is None else weg
     cfg["verbosity"] = 0 if core else draw(st.sampled_from([0, 0, 0, 0, 1, 3]))
     want_init = draw(st.integers(0, 2)) == 0 if init is None else init
     if want_init:
